@@ -38,6 +38,23 @@ def l2_tree_invariances(run, rng, quick):
                 run.violation("scale:dense-mismatch", dict(spec=spec, c=str(c)))
         except Exception as e:  # noqa
             run.count("scale-raised:" + type(e).__name__)
+        # derive-then-mutate: an in-place scalar multiple / normalisation of a derived state must not change its source
+        for dname, derive in (("copy", lambda t: t.copy()), ("to_complex", lambda t: t.to_complex()),
+                              ("scale", lambda t: t.scale(1.0)), ("add-zero-scale", lambda t: t.add(t.scale(0.0)))):
+            for src in (ttns, ttns.to_complex()):
+                try:
+                    before = lt.dense_of_ttns(src, [basis_list[i] for i in order]) * getattr(src, "coeff", 1.0)
+                    der = derive(src)
+                    der.scale(-2.5, inplace=True)
+                    after = lt.dense_of_ttns(src, [basis_list[i] for i in order]) * getattr(src, "coeff", 1.0)
+                except Exception as e:  # noqa
+                    run.count("derive-mutate-raised:" + type(e).__name__)
+                    continue
+                if np.max(np.abs(after - before)) > 1e-12 * scale:
+                    run.violation(f"alias:{dname}:inplace-scale-of-result-changes-source",
+                                  dict(spec=spec, derive=dname, source_dtype=str(np.asarray(before).dtype),
+                                       deviation=float(np.max(np.abs(after - before))),
+                                       what="scaling the derived tree state in place changed the state it was derived from"))
         # children listed in another order
         spec2 = lt.permute_children(rng, spec)
         tens2 = lt.permute_state_children(spec, spec2, st["tensors"])
